@@ -98,8 +98,11 @@ class PartitionedDistinguisherMixin(_PartitionnedDistinguisherBaseMixin):
     @_nb.njit(parallel=True)
     def _accumulate_core_1(traces, data, self_sum, self_sum_square, self_counters, self_precision):
         for sample_idx in _nb.prange(traces.shape[1]):
+            # Cast to the accumulators precision before squaring, as in _accumulate_core_2.
+            samples = _np.empty(traces.shape[0], dtype=self_precision)
+            samples[:] = traces[:, sample_idx]
             for trace_idx in range(traces.shape[0]):
-                x = traces[trace_idx, sample_idx]
+                x = samples[trace_idx]
                 xx = x * x
                 for data_idx in range(data.shape[1]):
                     data_value = data[trace_idx, data_idx]
